@@ -24,7 +24,7 @@ ASSUMPTIONS = ["Thompson-entropy tables are random: only the table-level arg-max
 N = {"quick": 150, "thorough": 5000}
 REQUIRE = {"quick": {"runs_reaching_200_rounds": 4, "evaluations_observed": 1500, "tables_checked": 800, "rule_values_checked": 1500, "data_delta_checked": 600,
                      "direct_joint_calls": 300, "direct_decoupled_calls": 300, "bandit_rounds": 100, "tie_tables": 100, "ad_sample_steps": 10, "ad_refine_steps": 10, "real_model_runs": 40, "rounds_with_non_ascending_active_set_order": 2, "batches_with_descending_objective_labels": 10}}
-TIMEOUT = {"quick": 1500, "thorough": 7200}
+TIMEOUT = {"quick": 1500, "thorough": 14400}
 ALL = ["PaVeBa", "PaVeBaGP-IH", "PaVeBaGP-DE", "PartialGP-rect", "PartialGP-ell", "VOGP", "EpsilonPAL", "Auer", "DecoupledGP", "VOGP", "PartialGP-rect"]
 
 
